@@ -15,11 +15,15 @@ package main
 import (
 	"bytes"
 	"context"
+	"encoding/json"
 	"errors"
 	"fmt"
+	"os"
+	"path/filepath"
 	"sort"
 	"strings"
 	"sync"
+	"sync/atomic"
 	"time"
 
 	blocks "github.com/ipfs/go-block-format"
@@ -1161,6 +1165,52 @@ func genPool(r *rng.R) scase {
 	return c
 }
 
+// family "resume": the per-peer cap is set below the pool size; peer 1 has at least as many responses as there are
+// executors, every one paused by the request hook and then resumed (UnpauseResponse, no extensions) one after the
+// other; each resumed response is larger than the allowance, so each one that runs parks an executor. The cap must
+// hold for resumed tasks as for new ones: an executor stays free for the other peer.
+func genResume(r *rng.R) scase {
+	c := baseCase(r, "resp", "resume")
+	c.Workers = r.Range(2, 3)
+	c.Cap = r.Range(1, c.Workers-1)
+	s := r.Range(int(c.MaxPeer)/2+1, int(c.MaxPeer)-40)
+	k := c.Workers + r.Range(0, 1)
+	nextR := 10
+	for i := 0; i < k; i++ {
+		c.Ops = append(c.Ops, op{K: "new", P: 1, R: nextR, Pause: true, W: "hook", Blocks: []int{s, s}})
+		nextR++
+	}
+	if r.P(1, 3) {
+		// a new (never paused) request of peer 1 among them counts against the same cap
+		c.Ops = append(c.Ops, op{K: "new", P: 1, R: nextR, Blocks: []int{s, s}})
+		nextR++
+		k++
+	}
+	for i := 0; i < k && 10+i < nextR; i++ {
+		if c.Ops[i].Pause {
+			c.Ops = append(c.Ops, op{K: "unpause", R: 10 + i, W: "ret"})
+		}
+	}
+	if c.Stalled {
+		// cap responses run: one block granted, every running response has one reservation waiting
+		c.Ops = append(c.Ops, op{K: "wait", W: "stats", Exp: []int{c.Cap, k - c.Cap, s, c.Cap * s}})
+	} else {
+		for i := 0; i < k; i++ {
+			c.Ops = append(c.Ops, op{K: "wait", P: 1, R: 10 + i, W: "done"})
+		}
+	}
+	c.Probe = probeOp(r, nextR)
+	if c.Stalled && r.P(1, 3) {
+		tableWrites(r, &c, &nextR)
+	}
+	c.Expect = "answered"
+	c.Tags = append(c.Tags, "pool-free", "resume-route")
+	if c.Stalled {
+		c.Tags = append(c.Tags, "stalled")
+	}
+	return c
+}
+
 // family "mix": histories without loop-side extension data: fills, paused requests, cancels, updates,
 // unpauses without extensions, a third peer
 func genMix(r *rng.R) scase {
@@ -1287,11 +1337,13 @@ func genReq(r *rng.R) scase {
 func genCase(r *rng.R) scase {
 	x := r.Intn(100)
 	switch {
-	case x < 40:
+	case x < 37:
 		return genSite(r)
-	case x < 60:
+	case x < 55:
 		return genPool(r)
-	case x < 82:
+	case x < 65:
+		return genResume(r)
+	case x < 84:
 		return genMix(r)
 	default:
 		return genReq(r)
@@ -1343,21 +1395,44 @@ func run(c *drv.Ctx) error {
 		v   verdict
 		err error
 	}
+	for i := range cases {
+		tags := append([]string{"family:" + cases[i].Family, "expect:" + cases[i].Expect}, cases[i].Tags...)
+		sort.Strings(tags)
+		cases[i].Tags = tags
+	}
 	results := make([]res, len(cases))
 	par := 10
 	sem := make(chan struct{}, par)
 	var wg sync.WaitGroup
+	var unserved int32 // cases in which the healthy peer was expected to be served and was not
+	const failFast = 6 // after that many no further case is started: the run is already decided
+	inflight := filepath.Join(c.Out, "inflight.json")
+	_ = os.MkdirAll(c.Out, 0o755)
+	ran := 0
 	for i := range cases {
+		if atomic.LoadInt32(&unserved) >= failFast {
+			break
+		}
 		wg.Add(1)
 		sem <- struct{}{}
+		// the case about to run (the most recently started one): a death of this process becomes a replay of it
+		if b, err := json.Marshal(cases[i]); err == nil {
+			_ = os.WriteFile(inflight, b, 0o644)
+		}
+		ran = i + 1
 		go func(i int) {
 			defer wg.Done()
 			defer func() { <-sem }()
 			v, err := runCase(cases[i], uint64(i+1))
 			results[i] = res{v, err}
+			if err == nil && cases[i].Expect == "answered" && !(v.Accepted && v.Answered) {
+				atomic.AddInt32(&unserved, 1)
+			}
 		}(i)
 	}
 	wg.Wait()
+	_ = os.Remove(inflight)
+	cases = cases[:ran]
 	reruns, expired := 0, 0
 	var notes []string
 	for i, sc := range cases {
@@ -1369,10 +1444,14 @@ func run(c *drv.Ctx) error {
 		if err != nil {
 			return err
 		}
-		tags := append([]string{"family:" + sc.Family, "expect:" + sc.Expect}, sc.Tags...)
-		sort.Strings(tags)
-		sc.Tags = tags
-		w.Add(term, sc, sc.Stalled, tags...)
+		idx := w.Add(term, sc, sc.Stalled, sc.Tags...)
+		if sc.Expect == "answered" && !(v.Accepted && v.Answered) {
+			what := "the healthy peer's request was not served within the deadline"
+			if sc.Stalled {
+				what += " while peer 1 was stalled"
+			}
+			w.Violation(idx, what+" ("+v.Note+")", "stall-unserved:"+sc.Family)
+		}
 		if strings.HasPrefix(v.Note, "rerun") {
 			reruns++
 		}
